@@ -1,6 +1,6 @@
 (** EmitProofs.v — lemmas about EmitDefs (C17).  Statements are re-exported by Properties_C17.v. *)
 From Coq Require Import String Ascii List Bool Arith Lia DecimalString DecimalNat Decimal DecimalFacts.
-From LC Require Import Common AstDefs GenDefs EmitDefs.
+From LC Require Import Common NumDefs AstDefs GenDefs EmitDefs.
 From LCGen Require Import AstTypes ProfileStrings.
 Import ListNotations.
 Local Open Scope string_scope.
@@ -338,44 +338,1065 @@ Definition entry_text (k : pkind) (i : info) : string :=
    cannot be forged by a name *)
 Definition ident_ok (s : string) : bool := no_char "["%char s.
 
+(* splice the occurrence of the marker [from] in the (closed) template it is searched in *)
+Ltac splice_at from :=
+  match goal with
+  | |- context [replace_first ?s from ?to] =>
+      let r := eval vm_compute in (split_first s from) in
+      match r with
+      | Some (?a, ?b) => rewrite (replace_first_split s from to a b) by (vm_compute; reflexivity)
+      end
+  end.
+Ltac skip_lit a := rewrite (replace_first_skip a "["%char) by reflexivity.
+Ltac skip_var a := rewrite (replace_first_skip a "["%char) by assumption.
+
 Lemma info_entry_text : forall k i, ident_ok (i_name i) = true -> ident_ok (i_units i) = true -> ident_ok (i_component i) = true ->
   info_entry_code (prof k) i = entry_text k i.
 Proof.
   intros k [n u c t] Hn Hu Hc. unfold info_entry_code, entry_text, ident_ok in *. simpl i_name in *. simpl i_units in *.
   simpl i_component in *. simpl i_type in *.
   destruct k; cbn [prof variable_info_entry_string profile_C profile_Py].
-  - erewrite replace_first_split by (vm_compute; reflexivity).
-    rewrite (replace_first_skip "{""" "["%char) by reflexivity.
-    rewrite (replace_first_skip n "["%char) by assumption.
-    erewrite replace_first_split by (vm_compute; reflexivity).
-    rewrite (replace_first_skip "{""" "["%char) by reflexivity.
-    rewrite (replace_first_skip n "["%char) by assumption.
-    rewrite (replace_first_skip """, """ "["%char) by reflexivity.
-    rewrite (replace_first_skip u "["%char) by assumption.
-    erewrite replace_first_split by (vm_compute; reflexivity).
-    rewrite (replace_first_skip "{""" "["%char) by reflexivity.
-    rewrite (replace_first_skip n "["%char) by assumption.
-    rewrite (replace_first_skip """, """ "["%char) by reflexivity.
-    rewrite (replace_first_skip u "["%char) by assumption.
-    rewrite (replace_first_skip """, """ "["%char) by reflexivity.
-    rewrite (replace_first_skip c "["%char) by assumption.
-    erewrite replace_first_split by (vm_compute; reflexivity).
+  - splice_at "[NAME]".
+    skip_lit "{""". skip_var n. splice_at "[UNITS]".
+    skip_lit "{""". skip_var n. skip_lit """, """. skip_var u. splice_at "[COMPONENT]".
+    skip_lit "{""". skip_var n. skip_lit """, """. skip_var u. skip_lit """, """. skip_var c. splice_at "[TYPE]".
     reflexivity.
-  - erewrite replace_first_split by (vm_compute; reflexivity).
-    rewrite (replace_first_skip "{""name"": """ "["%char) by reflexivity.
-    rewrite (replace_first_skip n "["%char) by assumption.
-    erewrite replace_first_split by (vm_compute; reflexivity).
-    rewrite (replace_first_skip "{""name"": """ "["%char) by reflexivity.
-    rewrite (replace_first_skip n "["%char) by assumption.
-    rewrite (replace_first_skip """, ""units"": """ "["%char) by reflexivity.
-    rewrite (replace_first_skip u "["%char) by assumption.
-    erewrite replace_first_split by (vm_compute; reflexivity).
-    rewrite (replace_first_skip "{""name"": """ "["%char) by reflexivity.
-    rewrite (replace_first_skip n "["%char) by assumption.
-    rewrite (replace_first_skip """, ""units"": """ "["%char) by reflexivity.
-    rewrite (replace_first_skip u "["%char) by assumption.
-    rewrite (replace_first_skip """, ""component"": """ "["%char) by reflexivity.
-    rewrite (replace_first_skip c "["%char) by assumption.
-    erewrite replace_first_split by (vm_compute; reflexivity).
+  - splice_at "[NAME]".
+    skip_lit "{""name"": """. skip_var n. splice_at "[UNITS]".
+    skip_lit "{""name"": """. skip_var n. skip_lit """, ""units"": """. skip_var u. splice_at "[COMPONENT]".
+    skip_lit "{""name"": """. skip_var n. skip_lit """, ""units"": """. skip_var u. skip_lit """, ""component"": """. skip_var c.
+    splice_at "[TYPE]".
     reflexivity.
+Qed.
+
+(** * buffer sizes *)
+
+(* the variables whose strings go into VariableInfo records *)
+Definition info_vars (m : amodel) : list avar :=
+  ((if has_odes m then (match am_voi m with Some v => [v] | None => [] end) ++ am_states m else []) ++ am_variables m)%list.
+
+Definition sizes_le (a b : sizes) : Prop :=
+  sz_component a <= sz_component b /\ sz_name a <= sz_name b /\ sz_units a <= sz_units b.
+
+Definition fits (v : avar) (s : sizes) : Prop :=
+  String.length (av_comp v) < sz_component s /\ String.length (av_name v) < sz_name s /\ String.length (av_units v) < sz_units s.
+
+Lemma update_sizes_spec : forall s v,
+  sz_component (update_sizes s v) = Nat.max (sz_component s) (String.length (av_comp v) + 1)
+  /\ sz_name (update_sizes s v) = Nat.max (sz_name s) (String.length (av_name v) + 1)
+  /\ sz_units (update_sizes s v) = Nat.max (sz_units s) (String.length (av_units v) + 1).
+Proof.
+  intros s v. unfold update_sizes. cbn [sz_component sz_name sz_units].
+  repeat split; match goal with |- context [Nat.ltb ?a ?b] => destruct (Nat.ltb_spec a b); lia end.
+Qed.
+
+Lemma fold_sizes_mono : forall l s, sizes_le s (fold_left update_sizes l s).
+Proof.
+  induction l as [|v l IH]; intros s; simpl; [unfold sizes_le; lia|].
+  specialize (IH (update_sizes s v)). destruct (update_sizes_spec s v) as (A & B & C).
+  unfold sizes_le in *. lia.
+Qed.
+
+Lemma fold_sizes_fits : forall l s v, In v l -> fits v (fold_left update_sizes l s).
+Proof.
+  induction l as [|w l IH]; intros s v H; simpl in *; [contradiction|]. destruct H as [<- | H].
+  - pose proof (fold_sizes_mono l (update_sizes s w)) as M. destruct (update_sizes_spec s w) as (A & B & C).
+    unfold fits, sizes_le in *. lia.
+  - now apply IH.
+Qed.
+
+Lemma info_sizes_fold : forall m, info_sizes m = fold_left update_sizes (info_vars m) (mkSizes 0 0 0).
+Proof.
+  intros m. unfold info_sizes, info_vars. destruct (has_odes m); [|reflexivity].
+  rewrite fold_left_app. destruct (am_voi m); simpl; rewrite ?fold_left_app; reflexivity.
+Qed.
+
+Lemma buffers_fit : forall m v, In v (info_vars m) -> fits v (info_sizes m).
+Proof. intros m v H. rewrite info_sizes_fold. now apply fold_sizes_fits. Qed.
+
+(* the sizes are tight: each is 1 + the longest string of its kind (0 when there is no record at all) *)
+Lemma fold_sizes_max : forall (f : avar -> string) (g : sizes -> nat),
+  (forall s v, g (update_sizes s v) = Nat.max (g s) (String.length (f v) + 1)) ->
+  forall l s, g (fold_left update_sizes l s) = fold_left (fun a v => Nat.max a (String.length (f v) + 1)) l (g s).
+Proof. intros f g H. induction l as [|v l IH]; intros s; simpl; [reflexivity|]. now rewrite IH, H. Qed.
+
+Lemma fold_max_attained : forall (h : avar -> nat) l a,
+  let r := fold_left (fun a v => Nat.max a (h v)) l a in r = a \/ exists v, In v l /\ r = h v.
+Proof.
+  induction l as [|w l IH]; intros a; simpl; [now left|].
+  destruct (IH (Nat.max a (h w))) as [E | [v [Hin E]]].
+  - destruct (Nat.max_spec a (h w)) as [[_ M] | [_ M]]; rewrite M in E.
+    + right. exists w. rewrite M. auto.
+    + left. rewrite M. assumption.
+  - right. exists v. auto.
+Qed.
+
+Lemma sizes_tight : forall m, info_vars m <> [] ->
+  (exists v, In v (info_vars m) /\ sz_component (info_sizes m) = String.length (av_comp v) + 1)
+  /\ (exists v, In v (info_vars m) /\ sz_name (info_sizes m) = String.length (av_name v) + 1)
+  /\ (exists v, In v (info_vars m) /\ sz_units (info_sizes m) = String.length (av_units v) + 1).
+Proof.
+  intros m NE. rewrite info_sizes_fold.
+  assert (G : forall (f : avar -> string) (g : sizes -> nat),
+            (forall s v, g (update_sizes s v) = Nat.max (g s) (String.length (f v) + 1)) -> g (mkSizes 0 0 0) = 0 ->
+            exists v, In v (info_vars m) /\ g (fold_left update_sizes (info_vars m) (mkSizes 0 0 0)) = String.length (f v) + 1).
+  { intros f g H Z. rewrite (fold_sizes_max f g H). rewrite Z.
+    destruct (fold_max_attained (fun v => String.length (f v) + 1) (info_vars m) 0) as [E | [v [Hin E]]].
+    - destruct (info_vars m) as [|w l] eqn:EV; [contradiction|]. exfalso.
+      simpl in E.
+      assert (M : forall l a, a <= fold_left (fun a v => Nat.max a (String.length (f v) + 1)) l a).
+      { induction l0 as [|x l0 IHl]; intros a; simpl; [lia|]. specialize (IHl (Nat.max a (String.length (f x) + 1))). lia. }
+      specialize (M l (String.length (f w) + 1)). lia.
+    - exists v. auto. }
+  repeat split.
+  - apply (G av_comp sz_component); [intros; apply update_sizes_spec | reflexivity].
+  - apply (G av_name sz_name); [intros; apply update_sizes_spec | reflexivity].
+  - apply (G av_units sz_units); [intros; apply update_sizes_spec | reflexivity].
+Qed.
+
+Lemma sizes_empty : forall m, info_vars m = [] -> info_sizes m = mkSizes 0 0 0.
+Proof. intros m H. rewrite info_sizes_fold, H. reflexivity. Qed.
+
+
+(** decimal numbers are non-empty digit strings, so a marker is not forged by a number either *)
+Lemma uint_digits : forall d, all_digits (NilEmpty.string_of_uint d) = true.
+Proof. induction d; simpl; try reflexivity; assumption. Qed.
+
+Lemma nat_to_string_digits : forall n, all_digits (nat_to_string n) = true.
+Proof.
+  intros n. unfold nat_to_string, NilZero.string_of_uint. destruct (Nat.to_uint n) eqn:E; try reflexivity;
+    apply (uint_digits _).
+Qed.
+
+Lemma nat_to_string_head : forall n, exists c r, nat_to_string n = String c r /\ is_digit c = true.
+Proof.
+  intros n. unfold nat_to_string, NilZero.string_of_uint in *.
+  destruct (Nat.to_uint n); simpl in *; eexists; eexists; (split; [reflexivity|]); try reflexivity.
+Qed.
+
+Lemma digits_no_char : forall c s, all_digits s = true -> is_digit c = false -> no_char c s = true.
+Proof.
+  induction s as [|d s IH]; simpl; intros H Hc; [reflexivity|]. apply andb_true_iff in H as [H1 H2].
+  rewrite IH by assumption. destruct (Ascii.eqb c d) eqn:E; [|reflexivity].
+  apply Ascii.eqb_eq in E. subst. congruence.
+Qed.
+
+(* a concrete prefix [a] followed by a text that starts with a digit: every attempt to match [from] that starts
+   inside [a] fails inside [a], or reaches the end of [a] where [from] wants a non-digit *)
+Fixpoint attempt_fails (from u : string) : bool :=
+  match from with
+  | EmptyString => false
+  | String f from' =>
+      match u with
+      | EmptyString => negb (is_digit f)
+      | String e u' => if Ascii.eqb f e then attempt_fails from' u' else true
+      end
+  end.
+Fixpoint skip_ok (from a : string) : bool :=
+  match a with
+  | EmptyString => true
+  | String _ a' => attempt_fails from a && skip_ok from a'
+  end.
+
+Lemma attempt_fails_sound : forall from u d t, attempt_fails from u = true -> is_digit d = true ->
+  prefix_drop from (u ++ String d t) = None.
+Proof.
+  induction from as [|f from IH]; intros u d t H Hd; simpl in *; [discriminate|].
+  destruct u as [|e u]; simpl.
+  - destruct (Ascii.eqb f d) eqn:E; [|reflexivity]. apply Ascii.eqb_eq in E. subst.
+    rewrite Hd in H. discriminate.
+  - destruct (Ascii.eqb f e); [|reflexivity]. now apply IH.
+Qed.
+
+Lemma replace_first_cons_none : forall c s from to,
+  prefix_drop from (String c s) = None -> replace_first (String c s) from to = String c (replace_first s from to).
+Proof. intros c s from to H. simpl replace_first at 1. simpl in H. rewrite H. reflexivity. Qed.
+
+Lemma replace_first_skip_num : forall a from to d t, skip_ok from a = true -> is_digit d = true ->
+  replace_first (a ++ String d t) from to = a ++ replace_first (String d t) from to.
+Proof.
+  induction a as [|c a IH]; intros from to d t H Hd; [reflexivity|].
+  simpl in H. apply andb_true_iff in H as [H1 H2].
+  pose proof (attempt_fails_sound from (String c a) d t H1 Hd) as E.
+  change ((String c a ++ String d t)) with (String c (a ++ String d t)) in *.
+  rewrite (replace_first_cons_none _ _ _ _ E). change (String c a ++ replace_first (String d t) from to)
+    with (String c (a ++ replace_first (String d t) from to)). f_equal. now apply IH.
+Qed.
+
+(* the struct as a reader of the C interface sees it *)
+Lemma variable_info_object_text : forall m,
+  variable_info_object_code m (variable_info_object_string profile_C) =
+  "typedef struct {" ++ nl ++ "    char name[" ++ nat_to_string (sz_name (info_sizes m)) ++ "];" ++ nl
+  ++ "    char units[" ++ nat_to_string (sz_units (info_sizes m)) ++ "];" ++ nl
+  ++ "    char component[" ++ nat_to_string (sz_component (info_sizes m)) ++ "];" ++ nl
+  ++ "    VariableType type;" ++ nl ++ "} VariableInfo;" ++ nl.
+Proof.
+  intros m. unfold variable_info_object_code. cbn [variable_info_object_string profile_C].
+  set (N := nat_to_string (sz_name (info_sizes m))).
+  set (U := nat_to_string (sz_units (info_sizes m))).
+  set (C := nat_to_string (sz_component (info_sizes m))).
+  splice_at "[COMPONENT_SIZE]".
+  match goal with |- context [replace_first (?a ++ ?s) "[NAME_SIZE]" ?to] =>
+    let r := eval vm_compute in (split_first a "[NAME_SIZE]") in
+    match r with Some (?x, ?y) => rewrite (replace_first_in_prefix a "[NAME_SIZE]" to s x y) by (vm_compute; reflexivity) end end.
+  destruct (nat_to_string_head (sz_name (info_sizes m))) as [d [t [EN Hd]]]. fold N in EN.
+  assert (DN : all_digits N = true) by apply nat_to_string_digits.
+  match goal with |- replace_first (?a ++ N ++ ?rest) _ _ = _ =>
+    rewrite EN; change (String d t ++ rest) with (String d (t ++ rest));
+    rewrite (replace_first_skip_num a) by (try assumption; vm_compute; reflexivity);
+    change (String d (t ++ rest)) with (String d t ++ rest); rewrite <- EN
+  end.
+  rewrite (replace_first_skip N "["%char) by (apply digits_no_char; [assumption | reflexivity]).
+  splice_at "[UNITS_SIZE]".
+  reflexivity.
+Qed.
+
+(** * need-flags and the AST *)
+
+Inductive occurs (t : ty) : ast -> Prop :=
+| occ_here : forall v l r, occurs t (Node t v l r)
+| occ_left : forall u v l r, occurs t l -> occurs t (Node u v l r)
+| occ_right : forall u v l r, occurs t r -> occurs t (Node u v l r).
+
+Fixpoint occurs_b (t : ty) (a : ast) : bool :=
+  match a with
+  | Null => false
+  | Node u _ l r => ty_beq u t || occurs_b t l || occurs_b t r
+  end.
+
+Lemma ty_beq_eq : forall a b, ty_beq a b = true <-> a = b.
+Proof. intros a b. split; [apply internal_ty_dec_bl | apply internal_ty_dec_lb]. Qed.
+
+Lemma occurs_b_iff : forall t a, occurs_b t a = true <-> occurs t a.
+Proof.
+  intros t a. split.
+  - induction a as [|u v l IHl r IHr]; simpl; intros H; [discriminate|].
+    apply orb_true_iff in H as [H | H]; [apply orb_true_iff in H as [H | H]|].
+    + apply ty_beq_eq in H. subst. constructor.
+    + apply occ_left. auto.
+    + apply occ_right. auto.
+  - induction 1; simpl.
+    + assert (E : ty_beq t t = true) by now apply ty_beq_eq. now rewrite E.
+    + rewrite IHoccurs. now rewrite orb_true_r.
+    + rewrite IHoccurs. now rewrite !orb_true_r.
+Qed.
+
+Lemma helper_beq_eq : forall a b, helper_beq a b = true <-> a = b.
+Proof. intros a b. split; [apply internal_helper_dec_bl | apply internal_helper_dec_lb]. Qed.
+
+Lemma get_flag_in : forall h fl, get_flag h fl = true <-> In h fl.
+Proof.
+  intros h fl. unfold get_flag. rewrite existsb_exists. split.
+  - intros [x [Hin E]]. apply helper_beq_eq in E. now subst.
+  - intros H. exists h. split; [assumption | now apply helper_beq_eq].
+Qed.
+
+Lemma get_set_flag : forall h g fl, get_flag h (set_flag g fl) = get_flag h fl || helper_beq h g.
+Proof.
+  intros h g fl. unfold set_flag. destruct (get_flag g fl) eqn:E.
+  - destruct (helper_beq h g) eqn:E2; [|now rewrite orb_false_r].
+    apply helper_beq_eq in E2. subst. now rewrite E.
+  - cbn [get_flag existsb]. fold (get_flag h fl). apply orb_comm.
+Qed.
+
+(* analyseNode sets the flag of helper h exactly at the nodes of type ty_of_helper h *)
+Lemma helper_of_ty_spec : forall t h, helper_of_ty t = Some h <-> t = ty_of_helper h.
+Proof. intros t h. split; [destruct t; simpl; intros H; try discriminate; inversion H; reflexivity | intros ->; destruct h; reflexivity]. Qed.
+
+Lemma get_set_ty_flag : forall h t fl, get_flag h (set_ty_flag t fl) = get_flag h fl || ty_beq t (ty_of_helper h).
+Proof.
+  intros h t fl. unfold set_ty_flag. destruct (helper_of_ty t) as [g|] eqn:E.
+  - rewrite get_set_flag. f_equal. apply helper_of_ty_spec in E. subst t.
+    destruct (helper_beq h g) eqn:E2.
+    + apply helper_beq_eq in E2. subst. symmetry. now apply ty_beq_eq.
+    + symmetry. destruct (ty_beq (ty_of_helper g) (ty_of_helper h)) eqn:E3; [|reflexivity].
+      apply ty_beq_eq in E3. assert (g = h) by (destruct g; destruct h; simpl in E3; try discriminate; reflexivity).
+      subst. assert (helper_beq h h = true) by now apply helper_beq_eq. congruence.
+  - destruct (ty_beq t (ty_of_helper h)) eqn:E3; [|now rewrite orb_false_r].
+    apply ty_beq_eq in E3. subst. rewrite (proj2 (helper_of_ty_spec _ h) eq_refl) in E. discriminate.
+Qed.
+
+Lemma need_flags_acc_spec : forall a h fl,
+  get_flag h (need_flags_acc a fl) = get_flag h fl || occurs_b (ty_of_helper h) a.
+Proof.
+  induction a as [|t v l IHl r IHr]; intros h fl; simpl.
+  - now rewrite orb_false_r.
+  - rewrite IHr, IHl, get_set_ty_flag. now rewrite !orb_assoc.
+Qed.
+
+Lemma flag_iff_occurs : forall h a, get_flag h (need_flags a) = true <-> occurs (ty_of_helper h) a.
+Proof. intros h a. unfold need_flags. rewrite need_flags_acc_spec. simpl. apply occurs_b_iff. Qed.
+
+Lemma need_flags_list_spec : forall l h,
+  get_flag h (need_flags_list l) = true <-> exists a, In a l /\ occurs (ty_of_helper h) a.
+Proof.
+  intros l h. unfold need_flags_list.
+  assert (G : forall l fl, get_flag h (fold_left (fun fl a => need_flags_acc a fl) l fl)
+                           = get_flag h fl || existsb (occurs_b (ty_of_helper h)) l).
+  { induction l0 as [|a l0 IH]; intros fl; simpl; [now rewrite orb_false_r|].
+    rewrite IH, need_flags_acc_spec. now rewrite orb_assoc. }
+  rewrite G. simpl. rewrite existsb_exists. split; intros [a [Hin H]]; exists a; (split; [assumption|]); now apply occurs_b_iff.
+Qed.
+
+(* a helper type that no node carries leaves its flag unset: nothing is flagged "just in case"; in particular the
+   qualifiers and the piecewise skeleton (DEGREE, LOGBASE, BVAR, PIECEWISE, PIECE, OTHERWISE) flag nothing themselves
+   and are transparent: an operator below them is found (occ_left / occ_right) *)
+Lemma qualifier_transparent : forall h q v a, In q [DEGREE; LOGBASE; BVAR; PIECE; OTHERWISE; PIECEWISE] ->
+  get_flag h (need_flags (Node q v a Null)) = get_flag h (need_flags a).
+Proof.
+  intros h q v a Hq. unfold need_flags. rewrite !need_flags_acc_spec. simpl.
+  assert (E : ty_beq q (ty_of_helper h) = false).
+  { destruct (ty_beq q (ty_of_helper h)) eqn:E; [|reflexivity]. apply ty_beq_eq in E. subst.
+    simpl in Hq. destruct h; simpl in Hq; repeat (destruct Hq as [Hq | Hq]; try discriminate); contradiction. }
+  rewrite E. now rewrite orb_false_r.
+Qed.
+
+(** * need-flags and the MathML: analyseNode *)
+
+Section MmlInd.
+  Variable P : mml -> Prop.
+  Hypothesis HEl : forall name kids, Forall P kids -> P (El name kids).
+  Hypothesis HCi : forall v, P (MCi v).
+  Hypothesis HCn : forall v, P (MCn v).
+  Hypothesis HCnE : forall a b, P (MCnE a b).
+  Fixpoint mml_ind' (n : mml) : P n :=
+    match n with
+    | El name kids =>
+        HEl name kids ((fix go (l : list mml) : Forall P l :=
+                          match l with
+                          | [] => Forall_nil P
+                          | x :: r => Forall_cons x (mml_ind' x) (go r)
+                          end) kids)
+    | MCi v => HCi v
+    | MCn v => HCn v
+    | MCnE a b => HCnE a b
+    end.
+End MmlInd.
+
+(* the flags an analysis step adds are exactly the helper types of the AST it returns *)
+Definition flags_ok (an : flags -> ast * flags) : Prop :=
+  forall fl h, get_flag h (snd (an fl)) = get_flag h fl || occurs_b (ty_of_helper h) (fst (an fl)).
+Definition leaf_res (an : flags -> ast * flags) : Prop :=
+  forall fl, exists t v, fst (an fl) = Node t v Null Null.
+
+Lemma analyse_no_kids_leaf : forall op pm gp, no_kids op = true -> leaf_res (analyse pm gp op).
+Proof.
+  intros op pm gp H fl. destruct op as [name kids| v | v | a b]; try (simpl; eexists; eexists; reflexivity).
+  destruct kids as [|k kids]; [|discriminate]. cbn [analyse].
+  repeat match goal with |- context [if ?c then _ else _] => destruct c end; simpl; eexists; eexists; reflexivity.
+Qed.
+
+Ltac use_ok H fl h E := let T := fresh "T" in pose proof (H fl h) as T; rewrite E in T; cbn [fst snd] in T.
+
+Lemma apply_chain_ok : forall an anop, flags_ok anop -> leaf_res anop ->
+  forall rs, Forall (fun y => flags_ok (an y)) rs -> flags_ok (apply_chain an anop rs).
+Proof.
+  intros an anop Hop Hleaf. induction rs as [|y ys IH]; intros HF fl h.
+  - simpl. now rewrite orb_false_r.
+  - inversion HF as [|y' ys' Hy Hys]; subst. destruct ys as [|z zs].
+    + simpl. apply Hy.
+    + change (apply_chain an anop (y :: z :: zs) fl)
+        with (let '(h', fla) := anop fl in let '(ly, flb) := an y fla in
+              let '(ry, flc) := apply_chain an anop (z :: zs) flb in (Node (ast_ty h') (ast_val h') ly ry, flc)).
+      destruct (anop fl) as [h' fla] eqn:E1. destruct (an y fla) as [ly flb] eqn:E2.
+      destruct (apply_chain an anop (z :: zs) flb) as [ry flc] eqn:E3.
+      use_ok Hop fl h E1. use_ok Hy fla h E2. pose proof (IH Hys flb h) as T1. rewrite E3 in T1. cbn [fst snd] in T1.
+      destruct (Hleaf fl) as [t [v Et]]. rewrite E1 in Et. cbn [fst] in Et. subst h'.
+      cbn [fst snd ast_ty ast_val occurs_b] in *. rewrite T1, T0, T. now rewrite ?orb_false_r, !orb_assoc.
+Qed.
+
+Lemma piecewise_chain_ok : forall an rs, Forall (fun y => flags_ok (an y)) rs -> flags_ok (piecewise_chain an rs).
+Proof.
+  intros an. induction rs as [|y ys IH]; intros HF fl h.
+  - simpl. now rewrite orb_false_r.
+  - inversion HF as [|y' ys' Hy Hys]; subst. destruct ys as [|z zs].
+    + simpl. apply Hy.
+    + change (piecewise_chain an (y :: z :: zs) fl)
+        with (let '(ly, fla) := an y fl in let '(ry, flb) := piecewise_chain an (z :: zs) fla in (Node PIECEWISE "" ly ry, flb)).
+      destruct (an y fl) as [ly fla] eqn:E2. destruct (piecewise_chain an (z :: zs) fla) as [ry flb] eqn:E3.
+      use_ok Hy fl h E2. pose proof (IH Hys fla h) as T1. rewrite E3 in T1. cbn [fst snd] in T1.
+      cbn [fst snd occurs_b]. rewrite T1, T.
+      assert (E : ty_beq PIECEWISE (ty_of_helper h) = false) by (destruct h; reflexivity).
+      rewrite E. now rewrite ?orb_false_l, !orb_assoc.
+Qed.
+
+Lemma not_helper_ty : forall t h, helper_of_ty t = None -> ty_beq t (ty_of_helper h) = false.
+Proof.
+  intros t h H. destruct (ty_beq t (ty_of_helper h)) eqn:E; [|reflexivity]. apply ty_beq_eq in E. subst.
+  rewrite (proj2 (helper_of_ty_spec _ h) eq_refl) in H. discriminate.
+Qed.
+
+(* the first child of every apply is an element without children *)
+Fixpoint heads_leaf (n : mml) : bool :=
+  match n with
+  | El name kids =>
+      (if name =? "apply" then match kids with op :: _ => no_kids op | [] => true end else true)
+      && forallb heads_leaf kids
+  | _ => true
+  end.
+
+Lemma analyse_flags_ok : forall n, heads_leaf n = true -> forall pm gp, flags_ok (analyse pm gp n).
+Proof.
+  induction n as [name kids IHk| v | v | a b] using mml_ind'; intros W pm gp fl h;
+    try (simpl; now rewrite ?orb_false_r; destruct h).
+  2,3,4: cbn [analyse fst snd occurs_b]; assert (E : forall t, In t [CI; CN] -> ty_beq t (ty_of_helper h) = false)
+      by (intros t [<-|[<-|[]]]; destruct h; reflexivity);
+    rewrite ?(E CI), ?(E CN) by (simpl; auto); now rewrite !orb_false_r.
+  cbn [heads_leaf] in W. apply andb_true_iff in W as [Whead Wk]. rewrite forallb_forall in Wk.
+  assert (K : forall y, In y kids -> forall pm gp, flags_ok (analyse pm gp y)).
+  { intros y Hy. rewrite Forall_forall in IHk. apply IHk; auto. }
+  assert (KF : forall l pm' gp', incl l kids -> Forall (fun y => flags_ok (analyse pm' gp' y)) l).
+  { intros l pm' gp' Hl. apply Forall_forall. intros y Hy. apply K. now apply Hl. }
+  cbn [analyse].
+  destruct (name =? "apply") eqn:Eap.
+  { destruct kids as [|op args]; [cbn [fst snd occurs_b]; destruct h; now rewrite orb_false_r|].
+    destruct (analyse false pm op fl) as [hd fl1] eqn:E1.
+    pose proof (analyse_no_kids_leaf op false pm Whead) as Hleaf.
+    destruct (Hleaf fl) as [t [v Et]]. rewrite E1 in Et. cbn [fst] in Et. subst hd.
+    use_ok (K op (or_introl eq_refl) false pm) fl h E1. cbn [occurs_b] in T.
+    destruct args as [|x rest].
+    - cbn [fst snd ast_ty ast_val occurs_b]. exact T.
+    - destruct (analyse false pm x fl1) as [l fl2] eqn:E2.
+      destruct (apply_chain (analyse false pm) (analyse false pm op) rest fl2) as [r fl3] eqn:E3.
+      use_ok (K x (or_intror (or_introl eq_refl)) false pm) fl1 h E2.
+      pose proof (apply_chain_ok (analyse false pm) (analyse false pm op) (K op (or_introl eq_refl) false pm) Hleaf rest
+                    (KF rest false pm (fun y Hy => or_intror (or_intror Hy))) fl2 h) as T1.
+      rewrite E3 in T1. cbn [fst snd] in T1.
+      cbn [fst snd ast_ty ast_val occurs_b]. rewrite T1, T0, T. now rewrite ?orb_false_r, !orb_assoc. }
+  destruct (name =? "eq") eqn:Eeq.
+  { destruct gp; cbn [fst snd occurs_b].
+    - destruct h; now rewrite !orb_false_r.
+    - rewrite get_set_flag. assert (E : ty_beq EQ (ty_of_helper h) = helper_beq h HEq) by (destruct h; reflexivity).
+      rewrite E. now rewrite !orb_false_r. }
+  destruct (name =? "piecewise") eqn:Epw.
+  { destruct kids as [|k0 rest]; [cbn [fst snd occurs_b]; destruct h; now rewrite orb_false_r|].
+    destruct (analyse false pm k0 fl) as [l fl1] eqn:E1.
+    destruct (piecewise_chain (analyse false pm) rest fl1) as [r fl2] eqn:E3.
+    use_ok (K k0 (or_introl eq_refl) false pm) fl h E1.
+    pose proof (piecewise_chain_ok (analyse false pm) rest (KF rest false pm (fun y Hy => or_intror Hy)) fl1 h) as T1.
+    rewrite E3 in T1. cbn [fst snd] in T1. cbn [fst snd occurs_b]. rewrite T1, T.
+    assert (E : ty_beq PIECEWISE (ty_of_helper h) = false) by (destruct h; reflexivity). rewrite E.
+    now rewrite ?orb_false_l, !orb_assoc. }
+  destruct (name =? "piece") eqn:Epc.
+  { assert (E : ty_beq PIECE (ty_of_helper h) = false) by (destruct h; reflexivity).
+    destruct kids as [|k0 [|k1 rest]].
+    - cbn [fst snd occurs_b]. rewrite E. now rewrite !orb_false_r.
+    - destruct (analyse false pm k0 fl) as [l fl1] eqn:E1. use_ok (K k0 (or_introl eq_refl) false pm) fl h E1.
+      cbn [fst snd occurs_b]. rewrite E, T. now rewrite ?orb_false_l, ?orb_false_r.
+    - destruct (analyse false pm k0 fl) as [l fl1] eqn:E1. destruct (analyse false pm k1 fl1) as [r fl2] eqn:E2.
+      use_ok (K k0 (or_introl eq_refl) false pm) fl h E1. use_ok (K k1 (or_intror (or_introl eq_refl)) false pm) fl1 h E2.
+      cbn [fst snd occurs_b]. rewrite E, T0, T. now rewrite ?orb_false_l, !orb_assoc. }
+  destruct ((name =? "otherwise") || (name =? "degree") || (name =? "logbase")) eqn:Eq.
+  { set (t := if name =? "otherwise" then OTHERWISE else if name =? "degree" then DEGREE else LOGBASE).
+    assert (E : ty_beq t (ty_of_helper h) = false)
+      by (unfold t; destruct (name =? "otherwise"); [|destruct (name =? "degree")]; destruct h; reflexivity).
+    destruct kids as [|k0 rest].
+    - cbn [fst snd occurs_b]. rewrite E. now rewrite !orb_false_r.
+    - destruct (analyse false pm k0 fl) as [l fl1] eqn:E1. use_ok (K k0 (or_introl eq_refl) false pm) fl h E1.
+      cbn [fst snd occurs_b]. rewrite E, T. now rewrite ?orb_false_l, ?orb_false_r. }
+  destruct (name =? "bvar") eqn:Ebv.
+  { assert (E : ty_beq BVAR (ty_of_helper h) = false) by (destruct h; reflexivity).
+    destruct kids as [|k0 [|k1 rest]].
+    - cbn [fst snd occurs_b]. rewrite E. now rewrite !orb_false_r.
+    - destruct (analyse false pm k0 fl) as [l fl1] eqn:E1. use_ok (K k0 (or_introl eq_refl) false pm) fl h E1.
+      cbn [fst snd occurs_b]. rewrite E, T. now rewrite ?orb_false_l, ?orb_false_r.
+    - destruct (analyse false pm k0 fl) as [l fl1] eqn:E1. destruct (analyse false pm k1 fl1) as [r fl2] eqn:E2.
+      use_ok (K k0 (or_introl eq_refl) false pm) fl h E1. use_ok (K k1 (or_intror (or_introl eq_refl)) false pm) fl1 h E2.
+      cbn [fst snd occurs_b]. rewrite E, T0, T. now rewrite ?orb_false_l, !orb_assoc. }
+  cbn [fst snd occurs_b]. rewrite get_set_ty_flag. now rewrite !orb_false_r.
+Qed.
+
+(** the flags after analysing a well-formed MathML tree = the flags before + the helper elements that occur in it,
+    at any depth and in any position (operand, qualifier, piece value, piece condition, otherwise) *)
+Lemma ty_beq_opt_helper : forall t h, ty_beq t (ty_of_helper h) = opt_helper_is (helper_of_ty t) h.
+Proof.
+  intros t h. unfold opt_helper_is. destruct (helper_of_ty t) as [g|] eqn:E.
+  - apply helper_of_ty_spec in E. subst t. destruct (helper_beq g h) eqn:E2.
+    + apply helper_beq_eq in E2. subst. now apply ty_beq_eq.
+    + destruct (ty_beq (ty_of_helper g) (ty_of_helper h)) eqn:E3; [|reflexivity].
+      apply ty_beq_eq in E3. assert (g = h) by (destruct g; destruct h; simpl in E3; try discriminate; reflexivity).
+      subst. assert (helper_beq h h = true) by now apply helper_beq_eq. congruence.
+  - now apply not_helper_ty.
+Qed.
+
+Definition flags_use (an : flags -> ast * flags) (u : helper -> bool) : Prop :=
+  forall fl h, get_flag h (snd (an fl)) = get_flag h fl || u h.
+
+Lemma apply_chain_uses : forall an anop uop (uy : mml -> helper -> bool), flags_use anop uop ->
+  forall rs, (forall y, In y rs -> flags_use (an y) (uy y)) ->
+  flags_use (apply_chain an anop rs)
+            (fun h => existsb (fun y => uy y h) rs || match rs with _ :: _ :: _ => uop h | _ => false end).
+Proof.
+  intros an anop uop uy Hop. induction rs as [|y ys IH]; intros HF fl h.
+  - simpl. now rewrite orb_false_r.
+  - destruct ys as [|z zs].
+    + cbn [apply_chain existsb]. rewrite (HF y (or_introl eq_refl) fl h). now rewrite !orb_false_r.
+    + change (apply_chain an anop (y :: z :: zs) fl)
+        with (let '(h', fla) := anop fl in let '(ly, flb) := an y fla in
+              let '(ry, flc) := apply_chain an anop (z :: zs) flb in (Node (ast_ty h') (ast_val h') ly ry, flc)).
+      destruct (anop fl) as [h' fla] eqn:E1. destruct (an y fla) as [ly flb] eqn:E2.
+      destruct (apply_chain an anop (z :: zs) flb) as [ry flc] eqn:E3.
+      pose proof (Hop fl h) as T. rewrite E1 in T. cbn [snd] in T.
+      pose proof (HF y (or_introl eq_refl) fla h) as T0. rewrite E2 in T0. cbn [snd] in T0.
+      pose proof (IH (fun w Hw => HF w (or_intror Hw)) flb h) as T1. rewrite E3 in T1. cbn [snd] in T1.
+      cbn [snd]. rewrite T1, T0, T. cbn [existsb].
+      destruct (get_flag h fl), (uop h), (uy y h), (uy z h), (existsb (fun y0 => uy y0 h) zs), zs; reflexivity.
+Qed.
+
+Lemma piecewise_chain_uses : forall an (uy : mml -> helper -> bool) rs, (forall y, In y rs -> flags_use (an y) (uy y)) ->
+  flags_use (piecewise_chain an rs) (fun h => existsb (fun y => uy y h) rs).
+Proof.
+  intros an uy. induction rs as [|y ys IH]; intros HF fl h.
+  - simpl. now rewrite orb_false_r.
+  - destruct ys as [|z zs].
+    + cbn [piecewise_chain existsb]. rewrite (HF y (or_introl eq_refl) fl h). now rewrite !orb_false_r.
+    + change (piecewise_chain an (y :: z :: zs) fl)
+        with (let '(ly, fla) := an y fl in let '(ry, flb) := piecewise_chain an (z :: zs) fla in (Node PIECEWISE "" ly ry, flb)).
+      destruct (an y fl) as [ly fla] eqn:E2. destruct (piecewise_chain an (z :: zs) fla) as [ry flb] eqn:E3.
+      pose proof (HF y (or_introl eq_refl) fl h) as T0. rewrite E2 in T0. cbn [snd] in T0.
+      pose proof (IH (fun w Hw => HF w (or_intror Hw)) fla h) as T1. rewrite E3 in T1. cbn [snd] in T1.
+      cbn [snd]. rewrite T1, T0. cbn [existsb]. now rewrite !orb_assoc.
+Qed.
+
+Lemma analyse_uses : forall n, wf_mml n = true -> forall pm gp, flags_use (analyse pm gp n) (fun h => uses pm gp h n).
+Proof.
+  induction n as [name kids IHk| v | v | a b] using mml_ind'; intros W pm gp fl h;
+    try (simpl; now rewrite ?orb_false_r).
+  cbn [wf_mml] in W. apply andb_true_iff in W as [War Wk]. rewrite forallb_forall in Wk.
+  assert (K : forall y, In y kids -> forall pm gp, flags_use (analyse pm gp y) (fun h => uses pm gp h y)).
+  { intros y Hy. rewrite Forall_forall in IHk. apply IHk; auto. }
+  cbn [analyse uses]. unfold elem_flag, structural.
+  destruct (name =? "apply") eqn:Eap; rewrite ?Eap in War.
+  { assert (Eeq : (name =? "eq") = false) by (apply String.eqb_eq in Eap; subst; reflexivity). rewrite Eeq. cbn [orb opt_helper_is].
+    destruct kids as [|op [|x rest]]; try discriminate.
+    destruct (analyse false pm op fl) as [hd fl1] eqn:E1. destruct (analyse false pm x fl1) as [l fl2] eqn:E2.
+    destruct (apply_chain (analyse false pm) (analyse false pm op) rest fl2) as [r fl3] eqn:E3.
+    pose proof (K op (or_introl eq_refl) false pm fl h) as T. rewrite E1 in T. cbn [snd] in T.
+    pose proof (K x (or_intror (or_introl eq_refl)) false pm fl1 h) as T0. rewrite E2 in T0. cbn [snd] in T0.
+    pose proof (apply_chain_uses (analyse false pm) (analyse false pm op) (fun h => uses false pm h op) (fun y h => uses false pm h y)
+                  (K op (or_introl eq_refl) false pm) rest
+                  (fun y Hy => K y (or_intror (or_intror Hy)) false pm) fl2 h) as T1.
+    rewrite E3 in T1. cbn [snd] in T1. cbn [snd existsb]. rewrite T1, T0, T.
+    destruct (get_flag h fl), (uses false pm h op), (uses false pm h x), (existsb (fun y => uses false pm h y) rest), rest as [|? [|? ?]]; reflexivity. }
+  destruct (name =? "eq") eqn:Eeq; rewrite ?Eeq in War.
+  { apply String.eqb_eq in Eeq. subst name. cbn in War. destruct kids; [|discriminate]. destruct gp; cbn [snd existsb opt_helper_is].
+    - now rewrite !orb_false_r.
+    - rewrite get_set_flag. f_equal. rewrite orb_false_r. destruct h; reflexivity. }
+  destruct (name =? "piecewise") eqn:Epw; rewrite ?Epw in War.
+  { cbn [orb opt_helper_is]. destruct kids as [|k0 rest]; [discriminate|].
+    destruct (analyse false pm k0 fl) as [l fl1] eqn:E1.
+    destruct (piecewise_chain (analyse false pm) rest fl1) as [r fl2] eqn:E3.
+    pose proof (K k0 (or_introl eq_refl) false pm fl h) as T. rewrite E1 in T. cbn [snd] in T.
+    pose proof (piecewise_chain_uses (analyse false pm) (fun y h => uses false pm h y) rest
+                  (fun y Hy => K y (or_intror Hy) false pm) fl1 h) as T1.
+    rewrite E3 in T1. cbn [snd] in T1. cbn [snd existsb]. rewrite T1, T. now rewrite !orb_assoc. }
+  destruct (name =? "piece") eqn:Epc; rewrite ?Epc in War.
+  { cbn [orb opt_helper_is]. destruct kids as [|k0 [|k1 [|k2 rest]]]; try discriminate.
+    destruct (analyse false pm k0 fl) as [l fl1] eqn:E1. destruct (analyse false pm k1 fl1) as [r fl2] eqn:E2.
+    pose proof (K k0 (or_introl eq_refl) false pm fl h) as T. rewrite E1 in T. cbn [snd] in T.
+    pose proof (K k1 (or_intror (or_introl eq_refl)) false pm fl1 h) as T0. rewrite E2 in T0. cbn [snd] in T0.
+    cbn [snd existsb]. rewrite T0, T. now rewrite ?orb_false_r, !orb_assoc. }
+  assert (One : forall t, Nat.eqb (length kids) 1 = true ->
+            get_flag h (snd (match kids with
+                             | k0 :: _ => let '(l, fl1) := analyse false pm k0 fl in (Node t "" l Null, fl1)
+                             | [] => (Node t "" Null Null, fl) end))
+            = get_flag h fl || (false || existsb (uses false pm h) kids)).
+  { intros t L. destruct kids as [|k0 [|k1 rest]]; try discriminate.
+    destruct (analyse false pm k0 fl) as [l fl1] eqn:E1.
+    pose proof (K k0 (or_introl eq_refl) false pm fl h) as T. rewrite E1 in T. cbn [snd] in T.
+    cbn [snd existsb]. rewrite T. now rewrite ?orb_false_r. }
+  destruct (name =? "otherwise") eqn:Eo; rewrite ?Eo in War; [cbn [orb opt_helper_is]; now apply One|].
+  destruct (name =? "degree") eqn:Ed; rewrite ?Ed in War; [cbn [orb opt_helper_is]; now apply One|].
+  destruct (name =? "logbase") eqn:El; rewrite ?El in War; [cbn [orb opt_helper_is]; now apply One|].
+  cbn [orb] in *.
+  destruct (name =? "bvar") eqn:Ebv; rewrite ?Ebv in War.
+  { cbn [opt_helper_is]. destruct kids as [|k0 [|k1 [|k2 rest]]]; try discriminate.
+    - destruct (analyse false pm k0 fl) as [l fl1] eqn:E1.
+      pose proof (K k0 (or_introl eq_refl) false pm fl h) as T. rewrite E1 in T. cbn [snd] in T.
+      cbn [snd existsb orb]. rewrite T. now rewrite ?orb_false_r.
+    - destruct (analyse false pm k0 fl) as [l fl1] eqn:E1. destruct (analyse false pm k1 fl1) as [r fl2] eqn:E2.
+      pose proof (K k0 (or_introl eq_refl) false pm fl h) as T. rewrite E1 in T. cbn [snd] in T.
+      pose proof (K k1 (or_intror (or_introl eq_refl)) false pm fl1 h) as T0. rewrite E2 in T0. cbn [snd] in T0.
+      cbn [snd existsb orb]. rewrite T0, T. now rewrite ?orb_false_r, !orb_assoc. }
+  destruct kids; [|discriminate]. cbn [snd existsb]. rewrite get_set_ty_flag, ty_beq_opt_helper. now rewrite orb_false_r.
+Qed.
+
+(* the flags of a whole model: analyse_math folds analyse over the top-level children of every <math> *)
+Lemma analyse_math_uses : forall eqs, forallb wf_mml eqs = true ->
+  forall h, get_flag h (snd (analyse_math eqs)) = existsb (uses true false h) eqs.
+Proof.
+  intros eqs W h. unfold analyse_math.
+  assert (G : forall eqs acc, forallb wf_mml eqs = true ->
+     get_flag h (snd (fold_left (fun '(asts, fl) n => let '(a, fl') := analyse_equation n fl in ((asts ++ [a])%list, fl')) eqs acc))
+     = get_flag h (snd acc) || existsb (uses true false h) eqs).
+  { induction eqs0 as [|n eqs0 IH]; intros [asts fl] W0; cbn [fold_left existsb]; [now rewrite orb_false_r|].
+    cbn [forallb] in W0. apply andb_true_iff in W0 as [W1 W2].
+    unfold analyse_equation at 2. destruct (analyse true false n fl) as [a fl'] eqn:E.
+    rewrite (IH _ W2). cbn [snd]. pose proof (analyse_uses n W1 true false fl h) as T. rewrite E in T. cbn [snd] in T.
+    rewrite T. now rewrite orb_assoc. }
+  rewrite (G eqs ([], []) W). reflexivity.
+Qed.
+
+(** [uses] in plain words: the element occurs somewhere in the tree *)
+Inductive has_element (nm : string) : mml -> Prop :=
+| he_here : forall kids, has_element nm (El nm kids)
+| he_kid : forall name kids k, In k kids -> has_element nm k -> has_element nm (El name kids).
+
+Lemma leaf_ty_helper : forall name h, leaf_ty name = ty_of_helper h -> h <> HEq -> name = element_name h.
+Proof.
+  intros name h H Hne. unfold leaf_ty in H.
+  repeat match type of H with
+         | (if ?n =? ?lit then _ else _) = _ =>
+             destruct (String.eqb_spec n lit) as [->|_];
+             [destruct h; try discriminate H; try reflexivity; contradiction|]
+         end.
+  destruct h; discriminate H.
+Qed.
+
+Lemma elem_flag_name : forall gp name h, h <> HEq ->
+  (opt_helper_is (elem_flag gp name) h = true <-> name = element_name h).
+Proof.
+  intros gp name h Hne. split.
+  - unfold elem_flag. destruct (String.eqb_spec name "eq") as [->|Hn].
+    + destruct gp; simpl; intros H; [discriminate|]. destruct h; try discriminate H. contradiction.
+    + destruct (structural name); [simpl; discriminate|]. unfold opt_helper_is.
+      destruct (helper_of_ty (leaf_ty name)) as [g|] eqn:E; [|discriminate]. intros H. apply helper_beq_eq in H. subst g.
+      apply helper_of_ty_spec in E. now apply leaf_ty_helper.
+  - intros ->. destruct h; try contradiction; destruct gp; reflexivity.
+Qed.
+
+Lemma uses_iff_element : forall h, h <> HEq -> forall n pm gp, uses pm gp h n = true <-> has_element (element_name h) n.
+Proof.
+  intros h Hne. induction n as [name kids IHk| v | v | a b] using mml_ind'; intros pm gp;
+    try (simpl; split; [discriminate | inversion 1]).
+  rewrite Forall_forall in IHk. cbn [uses]. rewrite orb_true_iff, existsb_exists. split.
+  - intros [H | [k [Hin H]]].
+    + apply (elem_flag_name gp name h Hne) in H. subst. constructor.
+    + eapply he_kid; [eassumption|]. eapply IHk; eassumption.
+  - inversion 1 as [kids' | name' kids' k Hin Hk]; subst.
+    + left. now apply (elem_flag_name gp _ h Hne).
+    + right. exists k. split; [assumption|]. now apply IHk.
+Qed.
+
+(* `eq`: the equality of an equation (first child of an apply that is a child of <math>) is not an operator;
+   every other `eq` element is *)
+Lemma uses_eq_below : forall n, uses false false HEq n = true <-> has_element "eq" n.
+Proof.
+  induction n as [name kids IHk| v | v | a b] using mml_ind'; try (simpl; split; [discriminate | inversion 1]).
+  rewrite Forall_forall in IHk. cbn [uses]. rewrite orb_true_iff, existsb_exists. split.
+  - intros [H | [k [Hin H]]].
+    + unfold elem_flag in H. destruct (String.eqb_spec name "eq") as [->|Hn]; [constructor|].
+      destruct (structural name); [discriminate|]. unfold opt_helper_is in H.
+      destruct (helper_of_ty (leaf_ty name)) as [g|] eqn:E; [|discriminate]. apply helper_beq_eq in H. subst g.
+      apply helper_of_ty_spec in E. exfalso. unfold leaf_ty in E.
+      repeat match type of E with
+             | (if ?n =? ?lit then _ else _) = _ => destruct (String.eqb_spec n lit) as [->|_]; [discriminate E|]
+             end. discriminate E.
+    + eapply he_kid; [eassumption|]. now apply IHk.
+  - inversion 1 as [kids' | name' kids' k Hin Hk]; subst.
+    + left. reflexivity.
+    + right. exists k. split; [assumption|]. now apply IHk.
+Qed.
+
+Lemma uses_eq_equation : forall args,
+  uses true false HEq (El "apply" (El "eq" [] :: args)) = existsb (uses false true HEq) args.
+Proof. intros. reflexivity. Qed.
+
+Lemma uses_eq_operand : forall name kids, name <> "eq" ->
+  (uses false true HEq (El name kids) = true <-> has_element "eq" (El name kids)).
+Proof.
+  intros name kids Hn. cbn [uses]. rewrite orb_true_iff, existsb_exists. split.
+  - intros [H | [k [Hin H]]].
+    + exfalso. unfold elem_flag in H. destruct (String.eqb_spec name "eq"); [contradiction|].
+      destruct (structural name); [discriminate|]. unfold opt_helper_is in H.
+      destruct (helper_of_ty (leaf_ty name)) as [g|] eqn:E; [|discriminate]. apply helper_beq_eq in H. subst g.
+      apply helper_of_ty_spec in E. unfold leaf_ty in E.
+      repeat match type of E with
+             | (if ?n =? ?lit then _ else _) = _ => destruct (String.eqb_spec n lit) as [->|_]; [discriminate E|]
+             end. discriminate E.
+    + eapply he_kid; [eassumption|]. now apply uses_eq_below.
+  - inversion 1 as [kids' | name' kids' k Hin Hk]; subst; [contradiction|].
+    right. exists k. split; [assumption|]. now apply uses_eq_below.
+Qed.
+
+(** * declared = defined *)
+
+Definition nlc : ascii := ascii_of_nat 10.
+
+Lemma app_differs : forall a r s, starts_with a s = false -> a ++ r <> s.
+Proof.
+  intros a r s H E. subst s. unfold starts_with in H. now rewrite prefix_drop_app in H.
+Qed.
+
+(* the signature line of a template starts with the template's own first characters, as long as those contain no
+   line break *)
+Lemma def_sig_starts : forall c a r, Ascii.eqb nlc c = false -> no_char nlc (String c a) = true ->
+  exists r', def_sig (String c a ++ r) = String c a ++ r'.
+Proof.
+  intros c a r Hc Hn. unfold def_sig, drop_leading_nl, nl. fold nlc.
+  assert (E : prefix_drop (String nlc "") (String c a ++ r) = None)
+    by (change (String c a ++ r) with (String c (a ++ r)); cbn [prefix_drop]; rewrite Hc; reflexivity).
+  rewrite E. unfold before. rewrite (split_first_skip (String c a) nlc "" r Hn).
+  destruct (split_first r (String nlc "")) as [[x y]|]; eexists; reflexivity.
+Qed.
+
+Lemma count_occ_map_none : forall (A : Type) (f : A -> string) (l : list A) (s : string),
+  (forall x, In x l -> f x <> s) -> count_occ string_dec (map f l) s = 0.
+Proof.
+  intros A f l s H. apply count_occ_not_In. intros Hin. apply in_map_iff in Hin as [x [E Hx]]. exact (H x Hx E).
+Qed.
+
+(* the declarations of the C interface, by (model has ODEs, model has external variables) *)
+Definition declared_C (ode ext : bool) : list string :=
+  ((if ode then ["double * createStatesArray()"] else [])
+   ++ ["double * createVariablesArray()"; "void deleteArray(double *array)"]
+   ++ [if ode
+       then (if ext then "void initialiseVariables(double voi, double *states, double *rates, double *variables, ExternalVariable externalVariable)"
+             else "void initialiseVariables(double *states, double *rates, double *variables)")
+       else (if ext then "void initialiseVariables(double *variables, ExternalVariable externalVariable)"
+             else "void initialiseVariables(double *variables)")]
+   ++ ["void computeComputedConstants(double *variables)"]
+   ++ (if ode
+       then [if ext then "void computeRates(double voi, double *states, double *rates, double *variables, ExternalVariable externalVariable)"
+             else "void computeRates(double voi, double *states, double *rates, double *variables)"]
+       else [])
+   ++ [if ode
+       then (if ext then "void computeVariables(double voi, double *states, double *rates, double *variables, ExternalVariable externalVariable)"
+             else "void computeVariables(double voi, double *states, double *rates, double *variables)")
+       else (if ext then "void computeVariables(double *variables, ExternalVariable externalVariable)"
+             else "void computeVariables(double *variables)")])%list.
+
+Lemma declared_sigs_table : forall m, declared_sigs profile_C m = declared_C (has_odes m) (am_has_ext m).
+Proof.
+  intros m. unfold declared_sigs, interface_create_delete_array_methods, interface_compute_model_methods, fdm, wev.
+  destruct (has_odes m); destruct (am_has_ext m); vm_compute; reflexivity.
+Qed.
+
+(* Python has no interface: nothing is declared *)
+Lemma declared_sigs_python : forall m, interface_code PPy (Some profile_Py) "" (Some m) = "".
+Proof. intros. apply python_has_no_interface. Qed.
+
+(* the fixed definitions of the C implementation, by (ODEs, externals) *)
+Lemma fixed_defined_C : forall m,
+  map def_sig
+    ((if has_odes m && negb (is_empty (implementation_create_states_array_method_string profile_C))
+      then [implementation_create_states_array_method_string profile_C] else [])
+     ++ (if negb (is_empty (implementation_create_variables_array_method_string profile_C))
+         then [implementation_create_variables_array_method_string profile_C] else [])
+     ++ (if negb (is_empty (implementation_delete_array_method_string profile_C))
+         then [implementation_delete_array_method_string profile_C] else []))%list
+  = ((if has_odes m then ["double * createStatesArray()"] else [])
+     ++ ["double * createVariablesArray()"; "void deleteArray(double *array)"])%list.
+Proof. intros m. destruct (has_odes m); vm_compute; reflexivity. Qed.
+
+Lemma nla_sigs_differ : forall m idx size s, In s (declared_C (has_odes m) (am_has_ext m)) ->
+  def_sig (objective_function_template profile_C m idx) <> s /\ def_sig (find_root_template profile_C m idx size) <> s.
+Proof.
+  intros m idx size s Hs. unfold objective_function_template, find_root_template, objective_function_method_string,
+    find_root_method_string, fdm.
+  destruct (has_odes m); destruct (am_has_ext m); cbn [profile_C objective_function_method_fam_string
+    objective_function_method_fdm_string find_root_method_fam_string find_root_method_fdm_string];
+    (split;
+     [ splice_at "[INDEX]";
+       match goal with |- def_sig (String ?c ?a ++ ?r) <> _ =>
+         destruct (def_sig_starts c a r eq_refl eq_refl) as [r' ->] end
+     | splice_at "[INDEX]";
+       match goal with |- def_sig (replace_first (?a ++ ?r) (String "["%char ?f) ?to) <> _ =>
+         rewrite (replace_first_skip a "["%char f to r eq_refl) end;
+       match goal with |- def_sig (String ?c ?a ++ ?r) <> _ =>
+         destruct (def_sig_starts c a r eq_refl eq_refl) as [r' ->] end ]);
+    apply app_differs; vm_compute in Hs;
+    repeat (destruct Hs as [<- | Hs]; [reflexivity|]); contradiction.
+Qed.
+
+Lemma helper_sigs_differ : forall ode ext s h, In s (declared_C ode ext) -> def_sig (function_string profile_C h) <> s.
+Proof.
+  intros ode ext s h Hs. destruct ode; destruct ext; vm_compute in Hs;
+    repeat (destruct Hs as [<- | Hs]; [destruct h; vm_compute; discriminate|]); contradiction.
+Qed.
+
+Definition nla_templates (p : profile) (m : amodel) : list string :=
+  if nla_enabled p m
+  then flat_map (fun '(idx, size) => [objective_function_template p m idx; find_root_template p m idx size]) (nla_systems m)
+  else [].
+
+Definition model_method_templates (p : profile) (m : amodel) : list string :=
+  ((let s := implementation_initialise_variables_method_string p (fdm m) (wev m) in if negb (is_empty s) then [s] else [])
+   ++ (if negb (is_empty (implementation_compute_computed_constants_method_string p))
+       then [implementation_compute_computed_constants_method_string p] else [])
+   ++ (let s := implementation_compute_rates_method_string p (wev m) in if has_odes m && negb (is_empty s) then [s] else [])
+   ++ (let s := implementation_compute_variables_method_string p (fdm m) (wev m) in if negb (is_empty s) then [s] else []))%list.
+
+Lemma method_templates_split : forall p m,
+  implementation_method_templates p m = (nla_templates p m ++ model_method_templates p m)%list.
+Proof. reflexivity. Qed.
+
+Lemma nla_count0 : forall m s, In s (declared_C (has_odes m) (am_has_ext m)) ->
+  count_occ string_dec (map def_sig (nla_templates profile_C m)) s = 0.
+Proof.
+  intros m s Hs. unfold nla_templates. destruct (nla_enabled profile_C m); [|reflexivity].
+  apply count_occ_not_In. intros Hin. apply in_map_iff in Hin as [t [E Ht]].
+  apply in_flat_map in Ht as [[idx size] [_ Ht]].
+  destruct (nla_sigs_differ m idx size s Hs) as [A B].
+  destruct Ht as [<- | [<- | []]]; contradiction.
+Qed.
+
+Lemma model_methods_sigs_C : forall m,
+  map def_sig (model_method_templates profile_C m) =
+  skipn (if has_odes m then 3 else 2) (declared_C (has_odes m) (am_has_ext m)).
+Proof.
+  intros m. unfold model_method_templates, fdm, wev. destruct (has_odes m); destruct (am_has_ext m); vm_compute; reflexivity.
+Qed.
+
+Lemma declared_defined_once : forall m s, In s (declared_sigs profile_C m) ->
+  count_occ string_dec (defined_sigs profile_C m) s = 1.
+Proof.
+  intros m s Hs. rewrite declared_sigs_table in Hs.
+  unfold defined_sigs, defined_templates. rewrite method_templates_split.
+  rewrite !map_app, !count_occ_app. rewrite (nla_count0 m s Hs).
+  rewrite map_map. rewrite (count_occ_map_none _ (fun h => def_sig (function_string profile_C h)) _ s)
+    by (intros h _; eapply helper_sigs_differ; eassumption).
+  rewrite model_methods_sigs_C.
+  destruct (has_odes m); destruct (am_has_ext m); vm_compute in Hs;
+    repeat (destruct Hs as [<- | Hs]; [vm_compute; reflexivity|]); contradiction.
+Qed.
+
+
+(** * what is emitted, by (model has ODEs, model has external variables) *)
+
+Lemma interface_info_declarations : forall m code,
+  add_interface_voi_state_and_variable_info profile_C m code =
+  code ++ nl ++ (if has_odes m then "extern const VariableInfo VOI_INFO;" ++ nl ++ "extern const VariableInfo STATE_INFO[];" ++ nl else "")
+  ++ "extern const VariableInfo VARIABLE_INFO[];" ++ nl.
+Proof. intros m code. unfold add_interface_voi_state_and_variable_info. destruct (has_odes m); reflexivity. Qed.
+
+Lemma external_typedef_iff : forall m code,
+  add_external_variable_method_type_definition profile_C m code =
+  if am_has_ext m
+  then code ++ nl ++ (if has_odes m
+                      then ("typedef double (" ++ "* ExternalVariable)(double voi, double *states, double *rates, double *variables, size_t index);")
+                      else ("typedef double (" ++ "* ExternalVariable)(double *variables, size_t index);")) ++ nl
+  else code.
+Proof.
+  intros m code. unfold add_external_variable_method_type_definition, fdm. destruct (am_has_ext m); [|reflexivity].
+  destruct (has_odes m); reflexivity.
+Qed.
+
+(* the VariableType enumeration lists VARIABLE_OF_INTEGRATION and STATE exactly for models with ODEs and EXTERNAL
+   exactly for models with external variables *)
+Lemma variable_type_object_C : forall fdm wev,
+  variable_type_object_string profile_C fdm wev =
+  "typedef enum {" ++ nl
+  ++ (if fdm then "    VARIABLE_OF_INTEGRATION," ++ nl ++ "    STATE," ++ nl else "")
+  ++ "    CONSTANT," ++ nl ++ "    COMPUTED_CONSTANT," ++ nl ++ "    ALGEBRAIC"
+  ++ (if wev then "," ++ nl ++ "    EXTERNAL" else "") ++ nl ++ "} VariableType;" ++ nl.
+Proof. destruct fdm; destruct wev; reflexivity. Qed.
+
+Definition type_text (k : pkind) (t : vtype) : string :=
+  (match k with PC => "" | PPy => "VariableType." end)
+  ++ match t with
+     | VConstant => "CONSTANT" | VComputedConstant => "COMPUTED_CONSTANT" | VAlgebraic => "ALGEBRAIC" | _ => "EXTERNAL"
+     end.
+
+Lemma variable_type_text : forall k t, variable_type_string (prof k) t = type_text k t.
+Proof. destruct k; destruct t; reflexivity. Qed.
+
+Definition voi_line (k : pkind) (e : string) : string :=
+  match k with PC => "const VariableInfo VOI_INFO = " ++ e ++ ";" ++ nl | PPy => "VOI_INFO = " ++ e ++ nl end.
+Definition table_text (k : pkind) (name rows : string) : string :=
+  match k with
+  | PC => "const VariableInfo " ++ name ++ "[] = {" ++ nl ++ rows ++ "};" ++ nl
+  | PPy => name ++ " = [" ++ nl ++ rows ++ "]" ++ nl
+  end.
+
+Lemma implementation_voi_info_text : forall k m code v, am_voi m = Some v ->
+  add_implementation_voi_info (prof k) m code =
+  if has_odes m then code ++ nlin code ++ voi_line k (info_entry_code (prof k) (voi_info (prof k) v)) else code.
+Proof.
+  intros k m code v Hv. unfold add_implementation_voi_info. rewrite Hv. destruct (has_odes m); [|reflexivity].
+  destruct k; cbn [prof andb negb is_empty implementation_voi_info_string variable_info_entry_string
+                   variable_of_integration_variable_type_string profile_C profile_Py]; splice_at "[CODE]"; reflexivity.
+Qed.
+
+Lemma implementation_state_info_text : forall k m code,
+  add_implementation_state_info (prof k) m code =
+  if has_odes m then code ++ nlin code ++ table_text k "STATE_INFO" (info_elements_code (prof k) (state_info_table (prof k) m) ++ nl)
+  else code.
+Proof.
+  intros k m code. unfold add_implementation_state_info. destruct (has_odes m); [|reflexivity].
+  destruct k; cbn [prof andb negb is_empty implementation_state_info_string variable_info_entry_string
+                   state_variable_type_string array_element_separator_string profile_C profile_Py]; splice_at "[CODE]"; reflexivity.
+Qed.
+
+Lemma implementation_variable_info_text : forall k m code,
+  add_implementation_variable_info (prof k) m code =
+  code ++ nlin code ++ table_text k "VARIABLE_INFO"
+    (let e := info_elements_code (prof k) (variable_info_table (prof k) m) in if is_empty e then e else e ++ nl).
+Proof.
+  intros k m code. unfold add_implementation_variable_info.
+  destruct k; cbn [prof andb negb is_empty implementation_variable_info_string variable_info_entry_string
+                   state_variable_type_string array_element_separator_string variable_of_integration_variable_type_string
+                   constant_variable_type_string computed_constant_variable_type_string algebraic_variable_type_string
+                   external_variable_type_string profile_C profile_Py]; splice_at "[CODE]"; reflexivity.
+Qed.
+
+(* createStatesArray and computeRates are declared exactly for models with ODEs; the other five always *)
+Lemma declared_names : forall m,
+  map sig_name (declared_sigs profile_C m) =
+  ((if has_odes m then ["createStatesArray"] else [])
+   ++ ["createVariablesArray"; "deleteArray"; "initialiseVariables"; "computeComputedConstants"]
+   ++ (if has_odes m then ["computeRates"] else []) ++ ["computeVariables"])%list.
+Proof. intros m. rewrite declared_sigs_table. destruct (has_odes m); destruct (am_has_ext m); vm_compute; reflexivity. Qed.
+
+(** * non-vacuity: a concrete analysed model and a concrete equation *)
+
+Definition ex_model : amodel :=
+  mkAmodel MDae (Some (mkAvar 0 VVoi "t" "second" "main"))
+    [mkAvar 0 VState "x" "mV" "membrane"]
+    [mkAvar 0 VConstant "g" "mS" "membrane"; mkAvar 1 VAlgebraic "i_long_name" "uA_per_cm2" "membrane";
+     mkAvar 2 VExternal "e" "dimensionless" "env"]
+    true
+    [mkAeq EOde 0 [] [(VState, 0)] Null; mkAeq ENla 0 [] [(VAlgebraic, 1)] Null; mkAeq EExternal 0 [] [(VExternal, 2)] Null]
+    [HXor].
+
+(* y = log_{piecewise(a if xor(a, b), otherwise b)}(c): xor only inside a piecewise condition inside a logbase *)
+Definition ex_equation : mml :=
+  El "apply" [El "eq" []; MCi "y";
+              El "apply" [El "log" [];
+                          El "logbase" [El "piecewise" [El "piece" [MCi "a"; El "apply" [El "xor" []; MCi "a"; MCi "b"]];
+                                                        El "otherwise" [MCi "b"]]];
+                          MCi "c"]].
+
+Lemma nonvacuous :
+  is_valid ex_model = true /\ wf_indices ex_model
+  /\ nth_error (variable_info_table profile_C ex_model) 1 = Some (mkInfo "i_long_name" "uA_per_cm2" "membrane" "ALGEBRAIC")
+  /\ nth_error (variable_info_table profile_Py ex_model) 2 = Some (mkInfo "e" "dimensionless" "env" "VariableType.EXTERNAL")
+  /\ info_sizes ex_model = mkSizes 9 12 14
+  /\ helpers_emitted profile_C ex_model = [HXor] /\ helpers_emitted profile_Py ex_model = [HXor]
+  /\ nla_systems ex_model = [(0, 1)]
+  /\ interface_code PC (Some profile_C) "0.6.1" (Some ex_model) <> ""
+  /\ implementation_code PPy (Some profile_Py) "0.6.1" (Some ex_model) <> []
+  /\ length (declared_sigs profile_C ex_model) = 7
+  /\ wf_mml ex_equation = true
+  /\ snd (analyse_math [ex_equation]) = [HXor]
+  /\ map ast_ty (fst (analyse_math [ex_equation])) = [EQUALITY].
+Proof.
+  repeat split; try (vm_compute; reflexivity); vm_compute; discriminate.
+Qed.
+
+(* the profile tables as they are now: which helper the C profile needs a definition for, and its text *)
+Lemma helper_table_C :
+  map (fun h => (helper_name h, sig_name (def_sig (function_string profile_C h)))) (filter (fun h => negb (has_operator profile_C h)) all_helpers)
+  = [("xor", "xor"); ("min", "min"); ("max", "max"); ("sec", "sec"); ("csc", "csc"); ("cot", "cot"); ("sech", "sech");
+     ("csch", "csch"); ("coth", "coth"); ("asec", "asec"); ("acsc", "acsc"); ("acot", "acot"); ("asech", "asech");
+     ("acsch", "acsch"); ("acoth", "acoth")].
+Proof. vm_compute. reflexivity. Qed.
+
+Lemma helper_table_Py :
+  map (fun h => sig_name (def_sig (function_string profile_Py h))) all_helpers
+  = ["eq_func"; "neq_func"; "lt_func"; "leq_func"; "gt_func"; "geq_func"; "and_func"; "or_func"; "xor_func"; "not_func";
+     "min"; "max"; "sec"; "csc"; "cot"; "sech"; "csch"; "coth"; "asec"; "acsc"; "acot"; "asech"; "acsch"; "acoth"].
+Proof. vm_compute. reflexivity. Qed.
+
+(** * statements as exported by Properties_C17.v *)
+Lemma info_entry_i : forall k m v, wf_indices m -> In v (am_variables m) ->
+  nth_error (variable_info_table (prof k) m) (av_index v) = Some (variable_info (prof k) v).
+Proof. intros k. exact (variable_info_entry_i (prof k)). Qed.
+
+Lemma state_entry_i : forall k m v, wf_indices m -> In v (am_states m) ->
+  nth_error (state_info_table (prof k) m) (av_index v) = Some (state_info (prof k) v).
+Proof. intros k. exact (state_info_entry_i (prof k)). Qed.
+
+Lemma info_row_i : forall k m i r, wf_indices m -> nth_error (variable_info_table (prof k) m) i = Some r ->
+  exists v, In v (am_variables m) /\ av_index v = i /\ r = variable_info (prof k) v.
+Proof. intros k. exact (variable_info_row (prof k)). Qed.
+
+Lemma info_lengths : forall k m,
+  length (state_info_table (prof k) m) = length (am_states m)
+  /\ length (variable_info_table (prof k) m) = length (am_variables m).
+Proof. intros k. exact (info_table_lengths (prof k)). Qed.
+
+Lemma info_rows_in_order : forall k rows,
+  info_elements_code (prof k) rows =
+  str_concat (array_element_separator_string (prof k) ++ nl)
+             (map (fun i => indent_string (prof k) ++ info_entry_code (prof k) i) rows).
+Proof. intros k rows. apply info_elements_code_join. destruct k; reflexivity. Qed.
+
+(** * "helpers are emitted exactly when the equations use them": refuted for externalised equations *)
+
+(* the equations the generated code computes are AnalyserModel::equations(); an EXTERNAL equation has no AST *)
+Definition equations_use (m : amodel) (h : helper) : Prop :=
+  exists e, In e (am_equations m) /\ occurs (ty_of_helper h) (ae_ast e).
+
+(* the flags are those of the ASTs the model kept (true when no equation was replaced by an external variable or
+   dropped; the check compares the two on every model) *)
+Definition flags_from_equations (m : amodel) : Prop :=
+  forall h, get_flag h (am_flags m) = get_flag h (need_flags_list (map ae_ast (am_equations m))).
+
+Lemma helper_iff_used_partial : forall k m h, is_valid m = true -> flags_from_equations m ->
+  (In h (helpers_emitted (prof k) m) <-> equations_use m h /\ has_operator (prof k) h = false).
+Proof.
+  intros k m h V F. rewrite (helper_iff k m h V). rewrite (F h).
+  split; intros [A B]; (split; [|exact B]).
+  - apply need_flags_list_spec in A as [a [Hin Ho]]. apply in_map_iff in Hin as [e [<- He]]. exists e. auto.
+  - destruct A as [e [He Ho]]. apply need_flags_list_spec. exists (ae_ast e). split; [now apply in_map|assumption].
+Qed.
+
+(* y = sec(a) with y handed to Analyser::addExternalVariable: the analyser keeps the flag that analyseNode set while
+   reading the MathML, drops the equation (its AnalyserEquation is of type EXTERNAL and has no AST), and the generator
+   emits a definition of sec that nothing calls *)
+Definition ext_equation : mml := El "apply" [El "eq" []; MCi "y"; El "apply" [El "sec" []; MCi "a"]].
+Definition ext_model : amodel :=
+  mkAmodel MAlgebraic None []
+    [mkAvar 0 VConstant "a" "dimensionless" "main"; mkAvar 1 VExternal "y" "dimensionless" "main"]
+    true
+    [mkAeq EExternal 0 [] [(VExternal, 1)] Null]
+    (snd (analyse_math [ext_equation])).
+
+Lemma helper_iff_used_refuted :
+  is_valid ext_model = true /\ wf_mml ext_equation = true
+  /\ In HSec (helpers_emitted profile_C ext_model) /\ In HSec (helpers_emitted profile_Py ext_model)
+  /\ ~ equations_use ext_model HSec.
+Proof.
+  repeat split; try (vm_compute; auto; fail).
+  intros [e [He Ho]]. simpl in He. destruct He as [<- | []]. simpl in Ho. inversion Ho.
+Qed.
+
+(* the flags analyseNode sets are those of the ASTs it builds, summed over the equations of the model *)
+Lemma analyse_math_flags_ast : forall eqs, forallb heads_leaf eqs = true ->
+  forall h, get_flag h (snd (analyse_math eqs)) = get_flag h (need_flags_list (fst (analyse_math eqs))).
+Proof.
+  intros eqs W h. unfold analyse_math, need_flags_list.
+  set (step := fun '(asts, fl) n => let '(a, fl') := analyse_equation n fl in ((asts ++ [a])%list, fl')).
+  assert (G : forall eqs acc, forallb heads_leaf eqs = true ->
+     get_flag h (snd acc) = get_flag h (fold_left (fun fl a => need_flags_acc a fl) (fst acc) []) ->
+     get_flag h (snd (fold_left step eqs acc))
+     = get_flag h (fold_left (fun fl a => need_flags_acc a fl) (fst (fold_left step eqs acc)) [])).
+  { induction eqs0 as [|n eqs0 IH]; intros [asts fl] W0 Hacc; cbn [fold_left]; [exact Hacc|].
+    cbn [forallb] in W0. apply andb_true_iff in W0 as [W1 W2]. apply (IH _ W2).
+    unfold step, analyse_equation. destruct (analyse true false n fl) as [a fl'] eqn:E.
+    cbn [fst snd] in *. rewrite fold_left_app. cbn [fold_left]. rewrite need_flags_acc_spec.
+    pose proof (analyse_flags_ok n W1 true false fl h) as T. rewrite E in T. cbn [fst snd] in T.
+    rewrite T, Hacc. reflexivity. }
+  apply (G eqs ([], []) W). reflexivity.
+Qed.
+
+(** * NLA method frames: exactly for models with NLA systems, two per system, in system order *)
+Lemma nla_methods_iff : forall k m,
+  nla_templates (prof k) m =
+  if has_nlas m
+  then flat_map (fun '(idx, size) => [objective_function_template (prof k) m idx; find_root_template (prof k) m idx size]) (nla_systems m)
+  else [].
+Proof.
+  intros k m. unfold nla_templates, nla_enabled, objective_function_method_string, find_root_method_string, nla_solve_call_string, fdm.
+  destruct (has_nlas m); [|reflexivity]. destruct k; destruct (has_odes m); reflexivity.
+Qed.
+
+(* every NLA equation belongs to exactly one emitted system: the systems listed are the distinct nlaSystemIndex values
+   in first-occurrence order when siblings are recorded consistently; here only: a model without NLA equations has none *)
+Lemma nla_systems_none : forall m, forallb (fun e => negb (is_nla (ae_type e))) (am_equations m) = true -> nla_systems m = [].
+Proof.
+  intros m. unfold nla_systems. generalize 0, (@nil nat). induction (am_equations m) as [|e l IH]; intros pos handled H; [reflexivity|].
+  cbn [forallb] in H. apply andb_true_iff in H as [H1 H2]. apply negb_true_iff in H1. cbn [nla_systems_from]. rewrite H1. cbn [andb].
+  now apply IH.
 Qed.
